@@ -264,6 +264,19 @@ def run(ctx):
             raise AnalysisError('anchor vanished: LatexContextDb.' + name)
         _check_copy_on_derive(ctx, m, name, fn)
 
+    ctx.rule('M13', 'an automatically generated category name is checked against the categories of the database before it '
+                    'is handed out (a name chosen by the user, or inherited, may look like a generated one)', 1)
+    gn_ = meths.get('_get_new_autogen_category')
+    if gn_ is None:
+        ctx.unknown('M13', m, None, '_get_new_autogen_category not found', construct='fresh category name')
+    else:
+        tests_ = [c_ for c_ in ast.walk(gn_) if isinstance(c_, ast.Compare) and len(c_.ops) == 1 and
+                  isinstance(c_.ops[0], (ast.In, ast.NotIn)) and is_self_attr(c_.comparators[0], 'category_list')]
+        ctx.decide('M13', bool(tests_), m, tests_[0] if tests_ else gn_, 'the generated name is tested against self.category_list',
+                   '_get_new_autogen_category hands out a name without testing it against self.category_list: after an '
+                   'extension under an explicit name the counter is not advanced, the next automatic extension receives a name '
+                   'that is already in use, its definitions overwrite the earlier category\'s and categories() lists the '
+                   'name twice', construct='fresh category name')
     ctx.rule('M12', 'extended_with() / filtered_context(): a path that hands back the database itself (no copy) has not '
                     'taken any option out of its keyword arguments before: requested overrides (unknown_*_spec) are never '
                     'dropped', 0)
